@@ -44,7 +44,7 @@ EXTRA = [
 CBMC_TAIL = ["-Z", "unstable-options", "--cbmc-args", "--max-field-sensitivity-array-size", "4200"]
 
 OB_RE = re.compile(r"^\s*//\s*@ob\s+(.*)$")
-FN_RE = re.compile(r"^\s*(?:pub\s+)?fn\s+([A-Za-z0-9_]+)\s*\(")
+FN_RE = re.compile(r"^\s*(?:(?:pub\s+)?fn\s+([A-Za-z0-9_]+)\s*\(|[a-z_]+_harness!\(\s*([A-Za-z0-9_]+)\s*,)")
 
 
 def parse_registry():
@@ -70,9 +70,10 @@ def parse_registry():
             m = FN_RE.match(line)
             if m and pending is not None:
                 ob = dict(pending)
-                ob["name"] = m.group(1)
+                fname = m.group(1) or m.group(2)
+                ob["name"] = fname
                 ob["module"] = mod
-                ob["path"] = ("jv_%s::%s" % (mod, m.group(1))) if mod.startswith("top_") else ("%s::jv::%s" % (mod, m.group(1)))
+                ob["path"] = ("jv_%s::%s" % (mod, fname)) if mod.startswith("top_") else ("%s::jv::%s" % (mod, fname))
                 ob["props"] = ob.get("props", "").split(",")
                 ob["tier"] = ob.get("tier", "quick")
                 ob["cap"] = int(ob.get("cap", "180"))
@@ -102,7 +103,7 @@ def parse_known():
 
 
 CHECK_RE = re.compile(
-    r"^Check (\d+): (\S+)\n\s+- Status: (\S+)\n\s+- Description: \"((?:.|\n)*?)\"\n\s+- Location: (.*?)$", re.M)
+    r"^Check (\d+): (.+)\n\s+- Status: (\S+)\n\s+- Description: \"((?:.|\n)*?)\"\n\s+- Location: (.*?)$", re.M)
 
 
 def parse_log(text):
@@ -296,7 +297,99 @@ def run_harness(scratch, ob, logdir, cap_scale=1.0):
     return r
 
 
+def native_exe(scratch, logdir):
+    """build (once per run) the harnesses as ordinary code against env/kani_native; returns the test binary"""
+    with scratch.lock:
+        if getattr(scratch, "_native", None) is not None:
+            return scratch._native
+    d = scratch.crate_for("native")
+    env = dict(os.environ, RUSTFLAGS="--cfg kani", CARGO_NET_OFFLINE="true", CARGO_TARGET_DIR=os.path.join(scratch.root, "native-target"))
+    env.pop("RUSTUP_TOOLCHAIN", None)
+    exe = None
+    try:
+        p = subprocess.run(["cargo", "test", "--lib", "--no-run", "--offline", "--message-format=json"], cwd=d, env=env,
+                           capture_output=True, text=True, timeout=900)
+        for line in p.stdout.splitlines():
+            try:
+                m = json.loads(line)
+            except Exception:
+                continue
+            if m.get("executable") and m.get("profile", {}).get("test"):
+                exe = m["executable"]
+        if exe is None:
+            open(os.path.join(logdir, "native-build.log"), "w").write(p.stdout[-4000:] + p.stderr[-8000:])
+    except subprocess.TimeoutExpired:
+        pass
+    scratch._native = exe or ""
+    return scratch._native
+
+
+def native_run(exe, harness, seed, timeout=60):
+    env = dict(os.environ, JV_HARNESS=harness, JV_SEED=str(seed), RUST_BACKTRACE="0")
+    try:
+        p = subprocess.run([exe, "jv_native_replay::replay", "--exact", "--nocapture", "--test-threads=1"], env=env,
+                           capture_output=True, text=True, timeout=timeout)
+    except subprocess.TimeoutExpired:
+        return "timeout", "", ""
+    out = p.stdout + p.stderr
+    m = re.search(r"JV-RESULT (\w+)(?: values=(.*))?", out)
+    kind = m.group(1) if m else ("fail" if p.returncode != 0 else "pass")
+    values = (m.group(2) or "") if m else ""
+    pm = re.search(r"panicked at ([^\n]*):\n([^\n]*(?:\n(?!note:|stack backtrace)[^\n]*){0,3})", out)
+    msg = (pm.group(1) + " :: " + pm.group(2).strip()) if pm else out[-300:]
+    return kind, values, msg
+
+
+def native_replay(scratch, ob, res, prop, logdir, budget_s=150, max_runs=40000):
+    """search for concrete values (seeded generator of env/kani_native) under which the harness, run as ordinary
+    code against the same sources and models, fails the way CBMC reported; a fully concrete harness needs one run"""
+    if ob.get("native", "yes") == "no":
+        return None, "native replay not applicable (harness stubs a jammdb function)"
+    exe = native_exe(scratch, logdir)
+    if not exe:
+        return None, "native replay build failed"
+    wanted = [f["desc"].strip('"')[:50] for f in res["failed"] if ".unwind." not in f["name"]]
+    locs = [re.sub(r" in function.*", "", f["loc"]).replace("src/jv/", "") for f in res["failed"]]
+    t0 = time.time()
+    seed = 0
+    other = None
+    while seed < max_runs and time.time() - t0 < budget_s:
+        kind, values, msg = native_run(exe, ob["name"], seed)
+        if kind == "fail":
+            if any(w and w in msg for w in wanted) or any(l.split(":")[0] in msg and (":" + l.split(":")[1] + ":") in msg for l in locs if ":" in l):
+                outdir = os.path.join(VERIF, "replays", prop)
+                os.makedirs(outdir, exist_ok=True)
+                path = os.path.join(outdir, ob["name"] + ".rs")
+                with open(path, "w") as f:
+                    f.write("// Counterexample for property %s, harness %s (module %s), found by CBMC via Kani and\n" % (prop, ob["name"], ob["module"]))
+                    f.write("// REPRODUCED NATIVELY: the harness, compiled as ordinary Rust against the same sources of /repo and the\n")
+                    f.write("// environment models, panics with the values below (env/kani_native generator, seed %d).\n" % seed)
+                    f.write("// jv-replay: harness=%s seed=%d\n" % (ob["name"], seed))
+                    f.write("// panic: %s\n" % msg.replace("\n", " | "))
+                    f.write("// values drawn by kani::any(), in call order: %s\n" % values)
+                    f.write("// CBMC failed checks:\n")
+                    for c in res["failed"][:8]:
+                        f.write("//   %s -- %s @ %s\n" % (c["name"], c["desc"][:200], c["loc"]))
+                    f.write("// To re-run: /verif/check %s --replay %s\n" % (prop, path))
+                return path, "reproduced"
+            other = other or (seed, msg)
+        elif kind == "timeout":
+            return None, "native run timed out"
+        seed += 1
+    return None, "not reproduced natively in %d runs%s" % (seed, (" (another failure seen at seed %d: %s)" % other) if other else "")
+
+
 def replay(scratch, ob, res, prop, logdir):
+    path, how = native_replay(scratch, ob, res, prop, logdir)
+    if how == "reproduced":
+        return path, how
+    kpath, khow = kani_playback(scratch, ob, res, prop, logdir)
+    if khow == "reproduced":
+        return kpath, khow
+    return kpath or path, "%s; kani playback: %s" % (how, khow)
+
+
+def kani_playback(scratch, ob, res, prop, logdir):
     """Turn CBMC's assignment into a concrete unit test (Kani concrete playback), run it
     natively against the same sources in the dev profile, and keep it under /verif/replays."""
     slot = scratch.slot()
@@ -318,7 +411,12 @@ def replay(scratch, ob, res, prop, logdir):
     if ob.get("flags"):
         cmd += ob["flags"].split()
     cmd += CBMC_TAIL
-    run_cmd(cmd, rc_dir, int(ob["cap"] * 2) + 120, log)
+    # the driver parses CBMC's full trace here: give it a generous address-space cap
+    BUDGET.acquire(30)
+    try:
+        run_cmd(cmd, rc_dir, int(ob["cap"] * 3) + 300, log, mem_gb=30)
+    finally:
+        BUDGET.release(30)
     scratch.release(slot)
     hfile = os.path.join(rc_dir, "src", "jv", ob["module"] + ".rs")
     src = open(hfile).read()
@@ -359,6 +457,7 @@ def main():
     ap.add_argument("--keep", action="store_true")
     ap.add_argument("--no-evidence", action="store_true")
     ap.add_argument("--replay", default=None)
+    ap.add_argument("--no-replay", action="store_true", help="development aid: report failing harnesses without the native replay step (exit 3)")
     args = ap.parse_args()
     tier = args.tier if args.tier in ("quick", "thorough") else "quick"
     prop = args.prop
@@ -374,6 +473,27 @@ def main():
     else:
         obs = [o for o in obs if o["tier"] in ("quick", "thorough")]
     if args.replay:
+        txt = open(args.replay).read()
+        m = re.search(r"jv-replay: harness=(\S+) seed=(\d+)", txt)
+        if m:
+            scratch = Scratch(prop + "-replay")
+            try:
+                logdir = os.path.join(VERIF, "logs", "%s-replay-%d" % (prop, os.getpid()))
+                os.makedirs(logdir, exist_ok=True)
+                exe = native_exe(scratch, logdir)
+                if not exe:
+                    print("INFRA: native replay build failed (see %s)" % logdir)
+                    return 2
+                kind, values, msg = native_run(exe, m.group(1), int(m.group(2)))
+                print("replay harness=%s seed=%s result=%s" % (m.group(1), m.group(2), kind))
+                print("values: %s" % values)
+                print("panic: %s" % msg)
+                if kind == "fail":
+                    print("VIOLATION property=%s replay=%s" % (prop, args.replay))
+                    return 1
+                return 0
+            finally:
+                scratch.cleanup()
         name = os.path.basename(args.replay)[:-3]
         obs = [o for o in reg if o["name"] == name]
     if not obs:
@@ -456,7 +576,10 @@ def main():
                             known_hits.append((hit, ob["name"], f))
                     else:
                         unmatched.append(f)
-                if unmatched:
+                if unmatched and args.no_replay:
+                    print("FAILED-UNREPLAYED property=%s harness=%s check=%s" % (prop, ob["name"], unmatched[0]["desc"][:140]))
+                    inconclusive.append((ob, r, "replay skipped (--no-replay)"))
+                elif unmatched:
                     path, how = replay(scratch, ob, r, prop, logdir)
                     r["replay"] = {"path": path, "result": how}
                     if how == "reproduced":
